@@ -3,8 +3,8 @@ EXTENDS Sba, TraceCommon
 VARIABLES l, nnew
 Ev == TraceLog[l]
 
-TReset == Ev.e = "Reset" /\ live' = << >> /\ moving' = << >> /\ mt' = 0 /\ nnew' = << >>
-TSetup == Ev.e = "Setup" /\ mt' = Ev.mt /\ UNCHANGED <<live, moving, nnew>>
+TReset == Ev.e = "Reset" /\ live' = << >> /\ moving' = << >> /\ used' = {} /\ act' = 0 /\ mt' = 0 /\ nnew' = << >>
+TSetup == Ev.e = "Setup" /\ mt' = Ev.mt /\ UNCHANGED <<live, moving, used, act, nnew>>
 TAcq == Ev.e = "Acq" /\ Acq(Ev) /\ UNCHANGED nnew
 TRelBegin == Ev.e = "RelBegin" /\ RelBegin(Ev.id) /\ UNCHANGED nnew
 TRelEnd == Ev.e = "RelEnd" /\ RelEnd(Ev) /\ UNCHANGED nnew
